@@ -175,7 +175,7 @@ def main(argv=None):
     else:
         und = agg["counts"].get("undecided", 0)
         dec = agg["counts"].get("decisions", 0)
-        if dec and und > 0.02 * (dec + und):
+        if und and und > 0.02 * (dec + und):
             harness_err = "undecided rate %d/%d above 2%%" % (und, dec + und)
     if harness_err:
         print("HARNESS-ERROR " + harness_err)
